@@ -42,7 +42,8 @@ Theorems (all for an arbitrary system `sys : Sys N`, `rk : N → Nat`)
   * non-vacuity: `exSys` (three nodes, one exclusion), `exSys_stratified`, `exSys_eval`, `exSys_D0`, `exSys_notP2`
 
 Nothing is weakened: full `Coherent` is provable, so no `eval_sound_on` variant is needed
-(`CoherentOn` is only used to make the uniqueness theorem stronger).  Everything is constructive.
+(`CoherentOn` is only used to make the uniqueness theorem stronger).  No classical case split on a
+semantic proposition is used (only the standard axioms pulled in by `omega` / well-founded recursion).
 -/
 import OpenFGAVerif.Props.C02
 import OpenFGAVerif.Props.C08
